@@ -6,7 +6,7 @@ func init() {
 			// C11: how an authorization response is put on the wire
 			Out:     "AuthResponse.lean",
 			NS:      "GenWire", // the byte-level model of the same functions the C03 slice models abstractly (Generated/Authorize.lean)
-			Imports: []string{"OidcModel.Model.AuthResponse"},
+			Imports: []string{"OidcModel.Model.AuthResponse", "OidcModel.Model.FormPost"},
 			Opens:   []string{"Go"},
 			Funcs: []FuncSpec{
 				{File: "pkg/op/auth_request.go", Name: "setFragment", Lean: "setFragment",
@@ -46,6 +46,7 @@ func init() {
 					Params: []string{"(urlParse : AR.Bytes → Go.R AR.URL)", "(authReq : AR.ErrReq)", "(parent : AR.GoErr)", "(encoder : Unit)", "(logger : Unit)"}, Ret: RetValErr, RetType: "AR.Redirect",
 					Rename: c11ErrRename},
 			},
+			Extra: c11SharedErrors,
 		},
 	}...)
 }
